@@ -301,6 +301,18 @@ func (x *Exec) builtin(e *ast.CallExpr, st *State, name string) Value {
 		st.add(False)
 		return Tu{}
 	case "delete", "clear", "print", "println":
+		if name == "delete" && len(e.Args) == 2 {
+			if mt, ok := x.info.TypeOf(e.Args[0]).Underlying().(*types.Map); ok {
+				mv := x.expr(e.Args[0], st)
+				kv := x.exprT(e.Args[1], st, mt.Key())
+				if msc, ok := mv.(Sc); ok {
+					if k, ok := x.keyID(st, mt.Key(), kv); ok {
+						x.mapDelete(st, msc.T, k)
+						return Tu{}
+					}
+				}
+			}
+		}
 		for _, a := range e.Args {
 			x.expr(a, st)
 		}
@@ -650,6 +662,13 @@ func (x *Exec) applyContract(e *ast.CallExpr, st *State, fn *types.Func, c *Cont
 		if rv == nil {
 			rv = x.fresh(st, sig.Recv().Type(), "recv")
 		}
+		if sc, isSc := rv.(Sc); isSc {
+			if _, isStruct := sig.Recv().Type().Underlying().(*types.Struct); isStruct {
+				// value-receiver method called through a pointer: (*p).M()
+				x.nilCheck(st, sc.T, e)
+				rv = x.heapLoad(st, sig.Recv().Type(), sc.T, "")
+			}
+		}
 		env[recvN] = cbind{rv, sig.Recv().Type()}
 		if _, isSt := rv.(St); isSt {
 			if pt, isPtr := sig.Recv().Type().Underlying().(*types.Pointer); isPtr {
@@ -753,6 +772,9 @@ func (x *Exec) applyModifies(st *State, c *Contract, fn *types.Func, env map[str
 		case mod == "":
 		case mod == "*":
 			x.havocHeapAll(st)
+		case strings.HasPrefix(mod, "map:"):
+			x.noteWrite(mod, nil)
+			x.havocHeapKey(st, mod)
 		case strings.Contains(mod, "@"):
 			// p@T.f : field f of the *T that p (an interface or pointer) refers to
 			i := strings.Index(mod, "@")
